@@ -97,6 +97,18 @@ impl Block {
         combined.extend_from_slice(data);
 
         let file_offset = self.offset + in_block_offset;
+        #[cfg(walrus_verif)]
+        match crate::wal::verif::io_event("block_write", &self.file_path, "", file_offset, &combined) {
+            crate::wal::verif::Action::Die => crate::wal::verif::die(),
+            crate::wal::verif::Action::Fail(e) => return Err(std::io::Error::from_raw_os_error(e)),
+            crate::wal::verif::Action::Short(n) => {
+                // torn write: only a prefix reaches the file, then the process is gone
+                let n = n.min(combined.len());
+                self.mmap.write(file_offset as usize, &combined[..n]);
+                crate::wal::verif::die()
+            }
+            crate::wal::verif::Action::Go => {}
+        }
         self.mmap.write(file_offset as usize, &combined);
         Ok(())
     }
@@ -165,6 +177,12 @@ impl Block {
         }
         let zeros = vec![0u8; len];
         let file_offset = self.offset + in_block_offset;
+        #[cfg(walrus_verif)]
+        if let crate::wal::verif::Action::Die =
+            crate::wal::verif::io_event("zero_range", &self.file_path, "", file_offset, &zeros)
+        {
+            crate::wal::verif::die()
+        }
         self.mmap.write(file_offset as usize, &zeros);
         Ok(())
     }
